@@ -31,6 +31,26 @@ def alts_for(count, B, tier):
     return sorted(set([b for b in range(1, 1 << B)] + [o << B for o in range(1, 8)]))
 
 
+def select_sites(S, tier, ev, where):
+    """The choice points of one run, thinned when ONE static site (the function that ranges the map) is reached very often
+    -- e.g. a map built and ranged once per variable or per profile: of each static site the first K and the last dynamic
+    occurrences of every distinct (entries, B) are explored; the cap is reported and the evidence says exhaustive=false."""
+    K = 12 if tier == 'thorough' else 4
+    byfn = {}
+    for site in S:
+        byfn.setdefault((site[4], site[1], site[2]), []).append(site)
+    out = []; capped = {}
+    for (fn, n, B), l in byfn.items():
+        if len(l) > K + 1:
+            capped[fn] = capped.get(fn, 0) + len(l)
+            l = l[:K] + l[-1:]
+        out += l
+    if capped:
+        ev.cap_hit('%s: static map sites reached more than %d times were thinned to the first %d and the last occurrence: %s' % (
+            where, K + 1, K, {f.split('/')[-1]: c for f, c in sorted(capped.items())}))
+    return sorted(out)
+
+
 def diff_trees(a, b):
     return sorted(k for k in set(a) | set(b) if a.get(k) != b.get(k))
 
@@ -68,6 +88,7 @@ def part1(ex, tier, ev, fnd):
             raise SystemExit('HARNESS ERROR: the all-default schedule replayed twice visited different choice points for ' + cfgx.tag(c))
         S = sites_of(r['out'])
         ev.sample({'config': cfgx.tag(c), 'choice_points': [{'site': s, 'entries': n, 'B': B, 'fn': fn.split('/')[-1]} for s, n, B, _, fn in S]}, cap=2)
+        S = select_sites(S, tier, ev, 'build of ' + cfgx.tag(c))
         for s, n, B, _, fn in S:
             for alt in alts_for(n, B, tier):
                 jobs.append({'steps': [(c, {'VERIF_MAPX': '%d:%d' % (s, alt), 'VERIF_MAPX_TRACE': '1', 'VERIF_MAPX_SEED': str(sd)})]}); meta.append((c, ((s, alt),), fn))
@@ -237,9 +258,7 @@ def part3(ex, tier, ev, fnd):
     # every map start inside a single step
     sched_jobs = []
     for k in K:
-        for s, n, B, _, fn in fresh[k][3]:
-            if '.init' in fn or 'cli.Configure' in fn:
-                continue
+        for s, n, B, _, fn in select_sites([x for x in fresh[k][3] if '.init' not in x[4] and 'cli.Configure' not in x[4]], tier, ev, 'step ' + k):
             for alt in alts_for(n, B, 'thorough'):
                 sched_jobs.append((k, '%d:%d' % (s, alt), fn))
     for (k, sched, fn), (steps, out) in zip(sched_jobs, pool.map(lambda j: sr.seq([j[0]], j[1]), sched_jobs)):
